@@ -274,9 +274,15 @@ def run_job(job, cfg, scratch, keep=False, variant=None):
             if rcp == 0:
                 ck = hashlib.sha256(('\0'.join([pp, r.cmd, repr(job.dfcc), job.entry, CBMC_VERSION] + (['split'] if job.split else []))).encode()).hexdigest()
                 cf = os.path.join(CACHE_DIR, ck + '.json')
+                cg = os.path.join(VERIF, 'cache', ck + '.json.gz')       # committed copy (tools/cache_commit.py): read-only at run time
                 if os.path.exists(cf):
                     try:
                         cd = json.load(open(cf)); rc, so, se, dt = cd['rc'], cd['so'], cd['se'], cd['dt']; r.cached = True
+                    except Exception: r.cached = False
+                elif os.path.exists(cg):
+                    try:
+                        import gzip
+                        cd = json.load(gzip.open(cg, 'rt')); rc, so, se, dt = cd['rc'], cd['so'], cd['se'], cd['dt']; r.cached = True
                     except Exception: r.cached = False
         if not r.cached:
             slot = heavy_slot(job.mem_gb)       # machine-wide limit on concurrently running memory-hungry back-end calls (also across invocations)
